@@ -73,7 +73,7 @@ CFG = {
     theorems=[P+"C15_history", P+"C15_serialise", P+"C15_iter", P+"C15_traverse", P+"C15_diff"],
     text="Theorems: with every panic/unwrap/expect/assert/debug_assert site of the modelled code an explicit error, every history of upserts and hash requests, serialisation at every state (and Some after a hash), node iteration, traversal and the diff of any two hashed real trees return ok - no assertion is reachable. Streams run in debug (assertions on) and release profiles with catch_unwind around every operation.",
     assumptions=[A_TOTAL, A_LVL, A_MODEL, "allocation failure / stack not modelled"]),
- "C16": dict(streams=S("dsmall","drand","trand","dwide"), level="proof",
+ "C16": dict(streams=S("dsmall","drand","trand","dwide","tpages"), level="proof",
     theorems=[P+"C16_roundtrip", P+"C16_diff", P+"C16_snapshot_roundtrip", P+"C16_owned_constructor", P+"C16_snapshot_diff", P+"C16_snapshot_clone", P+"C16_snapshot_stable"],
     text="PARTIAL. page_range_snapshot.rs is modelled (Model/Snapshot.lean: OwnedPageRange with the assertion of new, PageRangeSnapshot, the four conversions, iter() re-building every range through PageRange::new, Clone/clone_from/PartialEq, and a tree that keeps a snapshot while it is written to). Theorems: rebuilding ranges from accessor values never panics and yields equal ranges; a snapshot iterates to exactly the borrowed ranges; owned ranges built through new() equal the From conversion; both collection routes agree; diff is the same with rebuilt ranges or snapshots in either argument position; clone / clone_from into any existing snapshot yield the source; and (C16_snapshot_stable) a snapshot taken from a tree in ANY reachable state keeps iterating to the page ranges the tree had at that moment under EVERY continuation of upserts, none of which panics. Not expressible in a functional model: that the Rust snapshot shares no memory with the tree (ownership / aliasing) - decided by the harness with real PageRangeSnapshot objects kept across later upserts, compared with the earlier serialisation and used in diffs, plus == between snapshots built through four routes and clone_from both ways.",
     assumptions=[A_TOTAL, A_LVL, A_MODEL, "aliasing between snapshot and tree (ownership) is not expressible in the functional model"]),
